@@ -63,9 +63,11 @@ Inductive rq :=
 | RRaw (raw : bytes).             (* any other bytes *)
 Definition rq_bytes (q : rq) : bytes := match q with RAbs r _ => render_request r | RRaw raw => raw end.
 
-(* one way the bytes of the connection arrived: a cut specification per request, with what the
-   implementation did: the final outcome and the cumulative count of forwarded bytes after each piece *)
-Definition run := (list cutspec * N * list N)%type.
+(* one way the bytes of the connection arrived: a cut specification per request, the data that arrived from the
+   upstream server in between (index of the client piece BEFORE which it arrived, counted over the whole
+   connection; data), with what the implementation did: the final outcome and the cumulative count of forwarded
+   bytes after each client piece *)
+Definition run := (list cutspec * list (N * bytes) * N * list N)%type.
 
 Inductive fcase :=
 (* a whole client connection through the real HttpProtocolHandler + HttpProxyPlugin: the requests, one or more
@@ -113,8 +115,42 @@ Fixpoint pieces_of (datas : list bytes) (cuts : list cutspec) : list bytes :=
   | [], _ => []
   end.
 
-Definition run_one (cfg : fcfg) (ok : bool) (datas : list bytes) (cuts : list cutspec) : outcome * list N :=
-  feed_obs cfg ok init_state (pieces_of datas cuts) [].
+(* the event list: client pieces in order, upstream data inserted before the piece with the given index
+   (entries whose index is past the last piece come at the end) *)
+Fixpoint interleave (i : N) (pieces : list bytes) (sched : list (N * bytes)) (fuel : nat) : list event :=
+  match fuel with
+  | O => []
+  | S f =>
+      match sched with
+      | (j, d) :: st' =>
+          if j <=? i then EUpstream d :: interleave i pieces st' f
+          else match pieces with
+               | x :: t => EClient x :: interleave (i + 1) t sched f
+               | [] => EUpstream d :: interleave i pieces st' f
+               end
+      | [] => match pieces with
+              | x :: t => EClient x :: interleave (i + 1) t [] f
+              | [] => []
+              end
+      end
+  end.
+
+(* run the events; after every client piece record how many bytes have been handed to the upstream connection *)
+Fixpoint run_obs (cfg : fcfg) (connect_ok : bool) (cs : cstate) (evs : list event) (acc : list N) : outcome * list N :=
+  match evs with
+  | [] => (Done false (c_fwd cs), acc)
+  | EClient x :: t =>
+      match handle_data cfg connect_ok (c_fwd cs) x with
+      | Done false st' => run_obs cfg connect_ok (with_fwd cs st') t (acc ++ [len (upstream_bytes st')])
+      | o => (o, acc ++ [len (upstream_bytes (outcome_state o))])
+      end
+  | EUpstream x :: t => run_obs cfg connect_ok (read_from_upstream cs x) t acc
+  end.
+
+Definition run_one (cfg : fcfg) (ok : bool) (datas : list bytes) (cuts : list cutspec) (sched : list (N * bytes))
+  : outcome * list N :=
+  let pieces := pieces_of datas cuts in
+  run_obs cfg ok init_cstate (interleave 0 pieces sched (S (length pieces + length sched))) [].
 
 (* While the connection is open, what the upstream socket received is exactly what was queued.  When the
    handler tears the connection down (or an exception escapes) in the very call that queued something, the
@@ -129,8 +165,8 @@ Fixpoint counts_upto (model impl : list N) : bool :=
   end.
 
 Definition check_run (cfg : fcfg) (ok : bool) (datas : list bytes) (eu : bytes) (rn : run) : bool :=
-  let '(cuts, eo, ec) := rn in
-  let '(o, counts) := run_one cfg ok datas cuts in
+  let '(cuts, sched, eo, ec) := rn in
+  let '(o, counts) := run_one cfg ok datas cuts sched in
   (outcome_code o =? eo) &&
   (if eo =? 0 then bytes_eqb (upstream_bytes (outcome_state o)) eu && list_N_eqb counts ec
    else is_prefix eu (upstream_bytes (outcome_state o)) && counts_upto counts ec).
@@ -142,8 +178,8 @@ Definition check_case (c : fcase) : bool :=
       forallb (check_run cfg ok datas eu) runs &&
       (negb ok ||
        match runs with
-       | (cuts, _, _) :: _ =>
-           check_abs cfg true (abs_prefix reqs) (upstream_queue (outcome_state (fst (run_one cfg ok datas cuts))))
+       | (cuts, sched, _, _) :: _ =>
+           check_abs cfg true (abs_prefix reqs) (upstream_queue (outcome_state (fst (run_one cfg ok datas cuts sched))))
        | [] => false
        end)
   | FRef w e => option_eqb fwd_eqb (ref_parse_request w) e
@@ -154,8 +190,8 @@ Definition run_case (c : fcase) :=
   match c with
   | FConn cfg ok reqs runs _ =>
       let datas := map rq_bytes reqs in
-      Some (map (fun rn : run => let '(cuts, _, _) := rn in
-                                 let '(o, counts) := run_one cfg ok datas cuts in
+      Some (map (fun rn : run => let '(cuts, sched, _, _) := rn in
+                                 let '(o, counts) := run_one cfg ok datas cuts sched in
                                  (outcome_code o, upstream_bytes (outcome_state o), counts)) runs)
   | _ => None
   end.
